@@ -126,7 +126,9 @@ def family(ctx):
     ctx.obligation("translator consts: every numeric constant matched by a rule of rules.common / rules.fusion enumerated from the AST with its "
                    "tolerance arguments (fail-closed: unrecognised construct = broken tie)", not problems,
                    f"{len(rows)} rows in {stats['files']} files, {stats['pattern_functions']} pattern functions, {stats['attr_patterns']} attribute patterns (==), "
-                   f"{stats['dynamic_singletons']} computed integer singletons; problems: {problems[:3]}")
+                   f"{stats['dynamic_singletons']} computed integer singletons, {stats.get('named_constants', 0)} constants written as expressions / names, "
+                   f"{stats.get('saturating_slice_bounds', 0)} Slice bounds >= 2**62 (clamped sentinel, counted only); problems: {problems[:3]}")
+    ctx.cover(consts_saturating_slice_bounds=stats.get("saturating_slice_bounds", 0), consts_named_constants=stats.get("named_constants", 0))
     float_rows = [r for r in rows if r["kind"] in ("pattern", "singleton", "np_isclose", "math_isclose")]
     int_rows = [r for r in rows if r["kind"] in ("pattern_int", "singleton_int")]
     nonzero_tol = [r for r in float_rows if r["rel"] != 0 or r["abs"] != 0]
